@@ -129,6 +129,10 @@ def _create(a, pre):
         return p.datetime(*w, tz=tzarg(a), fold=f, raise_on_unknown_times=strict)
     if entry == "create":
         return p.DateTime.create(*w, tz=tzarg(a), fold=f, raise_on_unknown_times=strict)
+    if entry == "datetime_pos":       # every argument by position
+        return p.datetime(w[0], w[1], w[2], w[3], w[4], w[5], w[6], tzarg(a), f, strict)
+    if entry == "create_pos":
+        return p.DateTime.create(w[0], w[1], w[2], w[3], w[4], w[5], w[6], tzarg(a), f, strict)
     if entry == "tz_convert":
         return tzobj(a["tz"]).convert(_dt.datetime(*w, fold=f), raise_on_unknown_times=strict)
     if entry == "tz_convert_p":
